@@ -39,6 +39,19 @@ theorem C16_abbrev (s : Str) (k : Key) (h : (s, k) ∈ abbreviations) :
     decide +kernel
   exact beq_iff_eq.mp (List.all_eq_true.mp h' (s, k) h)
 
+/-- **C16 (abbreviations, all keys).** Every key that has an adjacent pair `x≤x` (resp. `y≤y`) may be
+written with a single `x` (resp. `y`), or both: all 58 such spellings of the 162 keys resolve to their
+key, not negated — not only the samples of `abbreviations`. (`x=y` and `y=x`, which would abbreviate
+`x≤x=y≤y` and `y≤y=x≤x`, are the manual's spelling of the identity: `C16_abbrev`.) -/
+theorem C16_abbrev_all (s : Codes) (k : Key) (h : (s, k) ∈ allAbbrevs) :
+    normalize names s = some (k.codes, false) := by
+  have h' : allAbbrevs.all (fun p => normalize names p.1 == some (p.2.codes, false)) = true := by
+    decide +kernel
+  exact beq_iff_eq.mp (List.all_eq_true.mp h' (s, k) h)
+
+example : allAbbrevs.length = 58 := by decide +kernel
+example : (codesOf "x<y≤y", (⟨.x, .x, .y, .y, .le, .lt, .le⟩ : Key)) ∈ allAbbrevs := by decide +kernel
+
 /-- **C16 (formula spellings, all junk).** Every formula spelling of every key — operands in
 either case with optional index digits, operators canonical or `<=`/`==`, *arbitrary* junk
 (spaces, parentheses, digits, … : any ASCII non-letters other than `< = !`) around and between the
